@@ -15,6 +15,8 @@ func init() {
 		run: func(c *Ctx, r *Report) {
 			ruleXZReaderChecks(c, r, "")
 			ruleBlockEnd(c, r, "")
+			ruleAllZeros(c, r, "")
+			ruleApplyOps(c, r, "")
 			ruleLzmaFilterCodec(c, r, "")
 			ruleCheckIDs(c, r, "")
 			rulePadLen(c, r, "")
